@@ -601,7 +601,7 @@ func TestC10Generated(t *testing.T) {
 			c.Pkgs = []string{"sk", "use"}
 			c.Sources = map[string]string{"sk/sk.go": lib, "use/use.go": use}
 		} else {
-			p := proggen.Gen(rt, proggen.GenOpts{Focus: "all", MinPkgs: 1, MaxPkgs: 3, TestFiles: true, Aliases: true, Rich: true})
+			p := proggen.Gen(rt, proggen.GenOpts{Focus: "all", MinPkgs: 1, MaxPkgs: 3, TestFiles: true, XTest: true, Aliases: true, Rich: true})
 			c.Pkgs, c.Sources = pkgDirs(p), p.Sources()
 			// append zoo files to random packages
 			for zi, z := range c10Zoo {
